@@ -206,6 +206,46 @@ def h_elliptical(cl, n, decorder):
     return h
 
 
+def h_prefilter(cl):
+    """the far / rafar pre-filter of the real regroup_vectorized: two sources 1e-6 deg apart in declination on the equator with
+    SYMBOLIC right ascensions in [0, 360); the pair distance stub says 'close'.  Sources whose RA difference modulo 360 is
+    within far/2 must reach the distance test (and so be grouped)"""
+    def h(c):
+        ra0, ra1 = real('ra0'), real('ra1')
+        for r in (ra0, ra1):
+            c.assume(z3.And(r.e >= 0, r.e < 360))
+        rec = real_np.rec.fromarrays([real_np.array([ra0, ra1], dtype=object), real_np.array([0.0, 1e-6]), real_np.array([30.0, 30.0]), real_np.array([20.0, 20.0]),
+                                      real_np.array([0.0, 0.0]), real_np.array([0.0, 1.0])], names=['ra', 'dec', 'a', 'b', 'pa', 'peak_flux'])
+        called = []
+
+        def dist(r, group_recs):
+            called.append(len(group_recs))
+            return real_np.zeros(len(group_recs))
+        groups = cl.regroup_vectorized(rec, eps=1.0, dist=dist)
+        d = ra0.e - ra1.e
+        ad = z3.If(d >= 0, d, -d)
+        wrapped = z3.If(ad <= 180, ad, 360 - ad)
+        together = len(groups) == 1
+        c.oblige('regroup_vectorized:sources within far/2 (RA difference modulo 360) are not pre-filtered', z3.Implies(wrapped <= 0.25, z3.BoolVal(together)))
+        return dict(groups=len(groups), tested=bool(called))
+    return h
+
+
+def oracle_wrap():
+    cl = loader.real('cluster')
+    models = loader.real('models')
+    for ras in ((359.999, 0.001), (0.001, 359.999), (359.9995, 0.0)):
+        srcs = []
+        for k, ra in enumerate(ras):
+            s = models.ComponentSource()
+            s.ra, s.dec, s.a, s.b, s.pa, s.peak_flux, s.island, s.source = ra, 0.001 * k, 60.0, 60.0, 0.0, 1.0 + k, k, 0
+            srcs.append(s)
+        groups = cl.regroup(srcs, eps=1.0)
+        if len(groups) != 1:
+            return True, 'ra-wrap-prefilter', 'two 60 arcsec sources at RA %s deg (%.1f arcsec apart, overlapping) end in %d groups' % (list(ras), 3600 * min(abs(ras[0] - ras[1]), 360 - abs(ras[0] - ras[1])), len(groups))
+    return False, None, None
+
+
 def oracle_elliptical():
     """real regroup() with the real norm_dist: C is linked to A and to B, A and B are not linked, C has the lowest declination"""
     cl = loader.real('cluster')
@@ -399,7 +439,7 @@ def run(rep):
     rep.end_kernel()
     rep.kernel('K-elliptical', functions=[F + ':regroup_vectorized', F + ':regroup'], bounds='n <= 3 (thorough 4) sources at distinct declinations in every order, pair distances FREE symbols (every adjacency pattern), symbolic eps',
                stubs=['dist (norm_dist) -> free symbolic pair distances (comparisons fork)', 'catalogue -> real numpy recarray with concrete distinct declinations and equal RA'],
-               outside=['norm_dist itself (ellipse radii along the joining line)', 'the far / rafar pre-filters (sources kept within them)'])
+               outside=['norm_dist itself (ellipse radii along the joining line)', 'the far / rafar pre-filters away from the equator (decided: two sources on the equator with symbolic RA, wrap included)'])
     eplans = []
     for n_ in ((2, 3, 4) if thorough else (2, 3)):
         for perm in itertools.permutations(range(n_)):
@@ -418,6 +458,15 @@ def run(rep):
                         edone = True
         if res and len(rep.samples) < 10:
             rep.sample(dict(kernel='K-elliptical', paths=len(res), first=res[0]['out']))
+    st, res = explore(h_prefilter(cl))
+    rep.stats(st)
+    for r in res:
+        for ob in r['obligations']:
+            rep.count(ob['result'], ob['name'])
+            if ob['result'] == 'sat':
+                bad, cls, detail = oracle_wrap()
+                rep.finding('C19/K-elliptical/%s' % (cls or 'prefilter'), dict(kind='wrap'), detail or ob['name'], reproduced=bad)
+    rep.sample(dict(kernel='K-elliptical/prefilter', paths=[r['out'] for r in res]))
     rep.end_kernel()
     rep.kernel('K-eps', functions=['AegeanTools/CLI/AeReg.py:main', 'AegeanTools/source_finder.py:SourceFinder.priorized_fit_islands'], bounds='all linking lengths in (0, 90) degrees given in arcmin',
                assumes=['slice: the statement(s) assigning eps / regroup_eps; both chord conventions (sin theta and 2 sin(theta/2)) are accepted, they differ by < 4e-5 relative below 1 degree'])
@@ -470,8 +519,8 @@ def handle(rep, res, kname):
 
 def replay(w):
     wit = w['witness']
-    if wit.get('kind') == 'elliptical':
-        bad, cls, detail = oracle_elliptical()
+    if wit.get('kind') in ('elliptical', 'wrap'):
+        bad, cls, detail = oracle_elliptical() if wit['kind'] == 'elliptical' else oracle_wrap()
         return bad, '%s: %s' % (cls, detail)
     bad, cls, detail = eps_oracle() if wit.get('kind') == 'eps' else oracle(int(wit.get('seed', 5)), 200)
     return bad, '%s: %s' % (cls, detail)
